@@ -59,6 +59,15 @@ func (g *gen) intE(d int) node {
 	}
 }
 
+// hdr: a header expression (loop test, switch discriminant, if condition, with operand), sometimes
+// passed through the script function __blk
+func (g *gen) hdr(n node) node {
+	if g.r.Chance(25) {
+		return node{"cid(" + n.sx + ")", "__blk(" + n.js + ")"}
+	}
+	return n
+}
+
 func (g *gen) boolE(d int) node {
 	switch g.r.Intn(6) {
 	case 0:
@@ -196,7 +205,7 @@ func (g *gen) stmt(d int) []node {
 		}
 		return []node{block(ns)}
 	case 4: // if
-		c := g.boolE(1)
+		c := g.hdr(g.boolE(1))
 		t := g.single(d - 1)
 		if g.r.Bool() {
 			if !strings.HasPrefix(t.sx, "B(") {
@@ -329,14 +338,18 @@ func (g *gen) loop(d int, pending []string) []node {
 		body = g.single(d - 1)
 	}
 	g.inLoop, g.loopLabels, g.inSwitch = saveLoop, saveLL, saveSw
+	wtest := g.hdr(node{"lt(" + incr + "," + limit + ")", "(" + incrJS + " < " + limitJS + ")"})
 	switch g.r.Intn(3) {
 	case 0:
-		return []node{reset, {"W(lt(" + incr + "," + limit + ")," + body.sx + ")", "while (" + incrJS + " < " + limitJS + ") " + body.js}}
+		return []node{reset, {"W(" + wtest.sx + "," + body.sx + ")", "while (" + wtest.js + ") " + body.js}}
 	case 1:
-		return []node{reset, {"D(" + body.sx + ",lt(" + incr + "," + limit + "))", "do " + body.js + " while (" + incrJS + " < " + limitJS + ");"}}
+		return []node{reset, {"D(" + body.sx + "," + wtest.sx + ")", "do " + body.js + " while (" + wtest.js + ");"}}
 	default:
-		init, test, upd := "asg("+k+",n0)", "lt(var("+k+"),"+limit+")", incr
-		initJS, testJS, updJS := "("+k+" = (0))", "("+k+" < "+limitJS+")", incrJS
+		ftest := g.hdr(node{"lt(var(" + k + ")," + limit + ")", "(" + k + " < " + limitJS + ")"})
+		fupd := g.hdr(node{incr, incrJS})
+		finit := g.hdr(node{"asg(" + k + ",n0)", "(" + k + " = (0))"})
+		init, test, upd := finit.sx, ftest.sx, fupd.sx
+		initJS, testJS, updJS := finit.js, ftest.js, fupd.js
 		if g.r.Chance(15) {
 			init, initJS = "_", ""
 		}
@@ -345,7 +358,7 @@ func (g *gen) loop(d int, pending []string) []node {
 }
 
 func (g *gen) switchS(d int, pending []string) node {
-	disc := g.intE(1)
+	disc := g.hdr(g.intE(1))
 	nc := 1 + g.r.Intn(4)
 	def := -1
 	if g.r.Chance(70) {
